@@ -209,3 +209,15 @@ func (o orderedJSON) MarshalJSON() ([]byte, error) {
 	b.WriteByte('}')
 	return b.Bytes(), nil
 }
+
+// normalize round-trips a generated case through JSON so that it has exactly
+// the dynamic types a case read from a file has.
+func normalize(c obj) obj {
+	var out obj
+	d := json.NewDecoder(bytes.NewReader(asciiJSON(c)))
+	d.UseNumber()
+	if err := d.Decode(&out); err != nil {
+		fatal("normalize: %v", err)
+	}
+	return out
+}
